@@ -7,6 +7,7 @@
 package main
 
 import (
+	"encoding/json"
 	"fmt"
 	"os"
 	"runtime"
@@ -276,7 +277,8 @@ func main() {
 		var c Case
 		r.LoadReplay(&c)
 		cl, what := check(c)
-		fmt.Printf("replay %+v\n  class=%q\n  %s\n", c, cl, what)
+		cj, _ := json.Marshal(c)
+		fmt.Printf("replay %s\n  class=%q\n  %s\n", cj, cl, what)
 		if n, _ := strconv.Atoi(os.Getenv("C16_REPEAT")); n > 0 {
 			// aid for scheduling-dependent behaviour (WriterTo pipe): repeat the case, print the distribution
 			dist := map[string]int{}
